@@ -59,3 +59,12 @@ func verifLemmaHeartbeatCarriesInfo(info *paramHeartbeatInfo) (out []byte, err e
 
 	return c.marshal()
 }
+
+// decode(encode(x)) == x for SACK chunks.
+func verifLemmaRoundTripSACK(s *chunkSelectiveAck) (q *chunkSelectiveAck, err error) {
+	raw, _ := s.marshal()
+	q = &chunkSelectiveAck{}
+	err = q.unmarshal(raw)
+
+	return q, err
+}
